@@ -399,7 +399,9 @@ def bounded(tier, seed):
     run = H.Run('C11', tier, seed, budget_s=90 if tier == 'quick' else 600)
 
     def windows(n):
-        w = [0, n - 1, -1, -n, 1, slice(0, 1), slice(1, n), slice(0, n), slice(1, n - 1), slice(-2, None), slice(None, -1), slice(n - 1, n)]
+        w = [0, n - 1, -1, -n, 1, slice(0, 1), slice(1, n), slice(0, n), slice(1, n - 1), slice(-2, None), slice(None, -1), slice(n - 1, n),
+             # bounds beyond the ends, which slicing clips: the window touches the low / high edge
+             slice(-n - 8, None), slice(-n - 1, 2), slice(1, n + 5)]
         return [x for x in w if np.atleast_1d(np.arange(n)[x]).size > 0]
 
     def first_len(sel, n):
